@@ -7,6 +7,8 @@ import (
 	"math"
 	"strconv"
 	"strings"
+	"unicode"
+	"unicode/utf8"
 )
 
 // Expression nodes. Literals are never negative: a negative number is
@@ -275,7 +277,8 @@ func objectField(o Value, name string) (Value, error) {
 		return v, nil
 	}
 	if name != "" {
-		up := strings.ToUpper(name[:1]) + name[1:]
+		first, size := utf8.DecodeRuneInString(name)
+		up := string(unicode.ToUpper(first)) + name[size:]
 		if v, ok := o.O[up]; ok {
 			return v, nil
 		}
